@@ -277,7 +277,7 @@ Definition opt_dec (code : Z) (data : list Z) : res (list Z) :=
         else Ok (f1 :: f2 :: src :: scope :: ecs_mask src prefix)
     | _ => Lib eFormError
     end
-  else if code =? 18 then Lib eUnmodelled                           (* REPORTCHANNEL *)
+  else if code =? 18 then Lib eUnmodelled                           (* REPORTCHANNEL: needs the message, see opts_loop *)
   else Ok data.                                                     (* GenericOption *)
 
 (* OPT rdata: OPT._to_wire *)
@@ -752,8 +752,9 @@ Section Reader.
   (* option codes with a specific class in dns.edns._type_to_class *)
   (* the option codes with a class of their own (dns.edns._type_to_class) *)
   Definition special_options : list Z := [3; 8; 10; 15; 18; 22; 23; 24; 25].
-  (* ... of which this one (REPORTCHANNEL: a name read with the message parser) is outside the model *)
-  Definition unmodelled_options : list Z := [18].
+  (* ... all of them are modelled: REPORTCHANNEL (a name read with the message parser) in opts_loop itself,
+     the others by opt_dec *)
+  Definition unmodelled_options : list Z := [].
 
   (* OPT.from_wire_parser *)
   Fixpoint opts_loop (fuel : nat) (endp cur : nat) (acc : list (Z * list Z)) : res (list (Z * list Z)) :=
@@ -765,7 +766,12 @@ Section Reader.
           do otype <- rd_u16 endp cur;
           do olen <- rd_u16 endp (cur + 2);
           do data <- rd_bytes endp (cur + 4) (Z.to_nat olen);
-          do d <- opt_dec otype data;
+          do d <- (if otype =? 18 then
+                     (* REPORTCHANNEL: parser.get_name() under restrict_to(olen); kept as Name.to_wire() *)
+                     do nc <- nm_from_wire (cur + 4 + Z.to_nat olen) (cur + 4);
+                     if Nat.eqb (snd nc) (cur + 4 + Z.to_nat olen) then Ok (wire_labels false (fst nc))
+                     else Lib eFormError
+                   else opt_dec otype data);
           opts_loop f endp (cur + 4 + Z.to_nat olen) ((otype, d) :: acc)
     end.
 End Reader.
